@@ -245,8 +245,22 @@ func Do(h http.Handler, spec ReqSpec) *Exchange {
 	e := &Exchange{Method: spec.Method, URL: u.String(), hdr: http.Header{}, cancel: cancel, StartedAt: time.Now()}
 	e.cond = sync.NewCond(&e.mu)
 	if spec.HasBody {
-		b := newCtlBody(spec.Body)
+		data := spec.Body
+		short := false
+		if spec.ContentLength >= 0 {
+			// net/http hands the handler exactly the declared number of bytes:
+			// surplus bytes belong to the next request, a short body fails
+			if spec.ContentLength < int64(len(data)) {
+				data = data[:spec.ContentLength]
+			} else if spec.ContentLength > int64(len(data)) {
+				short = true
+			}
+		}
+		b := newCtlBody(data)
 		b.blockAt, b.failAt, b.chunk = spec.BlockBodyAt, spec.FailBodyAt, spec.BodyChunk
+		if short && b.failAt < 0 {
+			b.failAt = len(data)
+		}
 		if b.failAt >= 0 {
 			b.failErr = io.ErrUnexpectedEOF
 		}
